@@ -346,7 +346,21 @@ def methods_commute(rep, r, k=0):
         with warnings.catch_warnings():
             warnings.simplefilter('ignore')
             return SourceCatalog(img * 1.0, segm, error=np.full(img.shape, 0.4), kron_params=kp)
-    calls = [('fluxfrac_radius', (0.5,)), ('circular_photometry', (3.0,)), ('kron_photometry', ((2.0, 1.0),))]
+    calls = [('fluxfrac_radius', (0.5,)), ('circular_photometry', (3.0,)), ('kron_photometry', ((2.0, 1.0),)), ('kron_photometry', ((2.5, 1.4, 6.0),))]
+    # kron_photometry with its own parameters gives what a catalogue CONSTRUCTED with those parameters reports as kron_flux (defect F73: the
+    # minimum circular radius was taken from the catalogue's own parameters)
+    with warnings.catch_warnings():
+        warnings.simplefilter('ignore')
+        try:
+            alt = (2.5, 1.4, 6.0)
+            got = np.asarray(fresh().kron_photometry(alt)[0], float)
+            want = np.asarray(SourceCatalog(img * 1.0, segm, error=np.full(img.shape, 0.4), kron_params=alt).kron_flux, float)
+            if not np.allclose(got, want, rtol=1e-10, equal_nan=True):
+                rep.violation('kron_photometry-ne-constructor', f'kron_photometry{alt} on a catalogue built with kron_params={kp} gives {got.tolist()}; a catalogue built '
+                              f'with kron_params={alt} reports kron_flux = {want.tolist()}', {'kron_params': list(kp), 'method_params': list(alt), 'image': img.tolist()})
+        except Exception as e:                                  # noqa: BLE001
+            rep.violation(f'method-raises:parent:kron_photometry:{type(e).__name__}', f'SourceCatalog(kron_params={kp}).kron_photometry((2.5, 1.4, 6.0)) raised {e!r}',
+                          {'kron_params': list(kp), 'image': img.tolist()})
     with warnings.catch_warnings():
         warnings.simplefilter('ignore')
         par = fresh()
